@@ -2,12 +2,23 @@
 //! https://nigelsmart.github.io/MPC-Circuits/
 
 use crate::circuit::{Circuit, Gate, PANIC_RESULT_SIZE_IN_BITS};
+#[cfg(not(feature = "verif_hooks"))]
 use std::{
     collections::{HashMap, HashSet},
     fs::File,
     io::{BufRead, BufReader, Write},
     num::ParseIntError,
     path::Path,
+};
+#[cfg(feature = "verif_hooks")]
+use {
+    crate::verif_hooks::{HashMap, HashSet},
+    std::{
+        fs::File,
+        io::{BufRead, BufReader, Write},
+        num::ParseIntError,
+        path::Path,
+    },
 };
 
 /// An error that occurred during compilation.
